@@ -440,6 +440,39 @@ impl Default for SymbolTable {
     }
 }
 
+/// Hooks for external verification harnesses. Read-only accessors and a public wrapper
+/// for the crate-private `enter_scope`.
+#[cfg(feature = "oq3_verif")]
+impl SymbolTable {
+    pub fn verif_enter_scope(&mut self, scope_type: ScopeType) {
+        self.enter_scope(scope_type)
+    }
+
+    pub fn verif_scope_depth(&self) -> usize {
+        self.number_of_scopes()
+    }
+
+    pub fn verif_current_scope_type(&self) -> ScopeType {
+        self.current_scope_type()
+    }
+
+    pub fn verif_num_symbols(&self) -> usize {
+        self.all_symbols.len()
+    }
+
+    pub fn verif_symbol(&self, n: usize) -> (&str, &Type) {
+        (self.all_symbols[n].name(), &self.all_symbols[n].typ)
+    }
+
+    pub fn verif_symbol_id(n: usize) -> SymbolId {
+        SymbolId(n)
+    }
+
+    pub fn verif_id_value(id: &SymbolId) -> usize {
+        id.0
+    }
+}
+
 use std::ops::Index;
 impl Index<&SymbolId> for SymbolTable {
     type Output = Symbol;
